@@ -91,6 +91,42 @@ def make_case(rng, i):
     for nm, v in spec["validators"].items():
         if not (set(v["providers"]) & set(spec["providers"])):
             v["providers"] = ["sm"] + v["providers"]
+    # names that the MACHINE reserves (state ids, send, states ...) are ordinary names on the model and on
+    # listeners: a callback / guard called like that and provided only by them works like any other
+    early_others = [p for p in spec["providers"] if p != "sm"]
+    if early_others and rng.random() < 0.3:
+        reserved = [s_["id"] for s_ in spec["states"]] + ["send", "states", "final_states"]
+        taken = {cb["name"] for cb in spec["cbs"].values()} | set(spec["guards"]) | set(spec["validators"])
+        free = [n for n in reserved if n not in taken]
+        by_name = {}
+        for cid, cb in spec["cbs"].items():
+            by_name.setdefault(cb["name"], []).append(cb)
+        movable = [n for n, lst in by_name.items() if n.startswith("nm") and all(cb["provider"] != "sm" for cb in lst)
+                   and any(cb["provider"] in early_others for cb in lst)]
+        if free and movable and rng.random() < 0.6:
+            old_n, new_n = rng.choice(movable), free.pop(rng.randrange(len(free)))
+            for cb in by_name[old_n]:
+                cb["name"] = new_n
+            for t in spec["transitions"]:
+                for grp in t["refs"].values():
+                    for r in grp:
+                        if r.get("name") == old_n:
+                            r["name"] = new_n
+            for refs in spec["state_refs"].values():
+                for grp in refs.values():
+                    for r in grp:
+                        if r.get("name") == old_n:
+                            r["name"] = new_n
+        gcand = [n for n, g in spec["guards"].items() if g["kind"] == "method" and not g.get("async") and n not in unless_names]
+        if free and gcand:
+            old_n, new_n = rng.choice(gcand), free.pop(rng.randrange(len(free)))
+            g = spec["guards"].pop(old_n)
+            g["providers"] = [rng.choice(early_others)]
+            spec["guards"][new_n] = g
+            for t in spec["transitions"]:
+                for x in t["guards"]:
+                    if x["name"] == old_n:
+                        x["name"] = new_n
     early_async = any(cb["async"] for cb in spec["cbs"].values() if cb["provider"] in spec["providers"]) or any(
         g.get("async") for g in spec["guards"].values()) or any(v.get("async") for v in spec["validators"].values())
     if not early_async:
